@@ -31,6 +31,7 @@ inductive Obj where
   | fn (name : String)    -- `#'name`: named function designator (user function or primitive)
   | mutex (id : Nat)      -- mutex (index into the lock table of the store)
   | cond (cls : String)   -- condition object (second value of ignore-errors)
+  | stream (id : Nat)     -- file stream (index into the stream table of the store)
   deriving DecidableEq, Repr, Inhabited
 
 /-- Lexical environment: frame ids (innermost first), visible blocks and go tags with the unique
@@ -48,6 +49,7 @@ structure Closure where
   body : List Obj
   env : Env
   name : String
+  rest : Option String := none   -- `&rest r`: the variable bound to the list of the surplus arguments
   deriving DecidableEq, Repr, Inhabited
 
 /-- The store. -/
@@ -61,6 +63,7 @@ structure St where
   nextId : Nat := 0                            -- unique ids for block / tagbody instances
   wide : Bool := false                         -- instrumentation: some integer result left the range
                                                -- in which slip's fixnum arithmetic is exact (C05)
+  streams : List Bool := []                    -- stream id ↦ open (streams opened by with-open-file)
   deriving DecidableEq, Repr, Inhabited
 
 /-- Outcomes. -/
@@ -194,6 +197,11 @@ def setFun (σ : St) (name : String) (id : Nat) : St :=
 
 def setLock (σ : St) (id : Nat) (b : Bool) : St := { σ with locks := σ.locks.set id b }
 
+/-- open a stream: its id is the current number of streams -/
+def addStream (σ : St) : St := { σ with streams := σ.streams ++ [true] }
+
+def closeStream (σ : St) (id : Nat) : St := { σ with streams := σ.streams.set id false }
+
 -- ---------------------------------------------------------------------------------------------
 -- result combinators. `timeout` is absorbing in every one of them: that is what makes the
 -- evaluator monotone in the fuel.
@@ -220,13 +228,14 @@ def catchRet (id : Nat) (r : Res) : Res :=
 -- primitives (ordinary functions: called with evaluated arguments)
 
 inductive Prim where
-  | vtr | vheld | add | sub | mul | inc | dec | lt | gt | le | ge | numEq
+  | vtr | vheld | vopen | add | sub | mul | inc | dec | lt | gt | le | ge | numEq
   | eql | equal | cons | car | cdr | list | not | length | div
   deriving DecidableEq, Repr, Inhabited
 
 def primOf : String → Option Prim
   | "vtr" => some .vtr
   | "vheld" => some .vheld
+  | "vopen" => some .vopen
   | "+" => some .add
   | "-" => some .sub
   | "*" => some .mul
@@ -289,6 +298,10 @@ def applyPrim (p : Prim) (vs : List Obj) (σ : St) : Res :=
     match σ.locks[id]? with
     | some b => (.val [ofBool b], σ)
     | none => (.err typeError, σ)
+  | .vopen, [.stream id] =>
+    match σ.streams[id]? with
+    | some b => (.val [ofBool b], σ)
+    | none => (.err typeError, σ)
   | .add, vs => match ints vs with
     | some is => numResult σ (is.foldl (· + ·) 0)
     | none => (.err typeError, σ)
@@ -331,7 +344,7 @@ inductive Form where
   | let_ | letStar | setq | lambda | function | funcall | apply | mapcar | defun
   | dolist | dotimes | do_ | doStar | values | mvBind | mvList
   | block | returnFrom | return_ | tagbody | go_ | unwindProtect | ignoreErrors | error_
-  | withMutexLock
+  | withMutexLock | recover | withOpenFile
   | call          -- anything else: call of a named function
   deriving DecidableEq, Repr, Inhabited
 
@@ -371,6 +384,8 @@ def formOf : String → Form
   | "ignore-errors" => .ignoreErrors
   | "error" => .error_
   | "with-mutex-lock" => .withMutexLock
+  | "recover" => .recover
+  | "with-open-file" => .withOpenFile
   | _ => .call
 
 def programError : String := "program-error"
@@ -381,6 +396,16 @@ def symNames : List Obj → Option (List String)
   | [] => some []
   | .sym s :: rest => (symNames rest).map (s :: ·)
   | _ => none
+
+/-- lambda list: required parameters, optionally followed by `&rest r` (nothing after it) -/
+def splitRest : List String → Option (List String × Option String)
+  | [] => some ([], none)
+  | x :: xs =>
+    if x == "&rest" then
+      match xs with
+      | [r] => if r == "&rest" then none else some ([], some r)
+      | _ => none
+    else (splitRest xs).map (fun p => (x :: p.1, p.2))
 
 /-- `x`, `(x)`, `(x init)` → (name, init form) -/
 def parseBinding : Obj → Option (String × Obj)
@@ -459,6 +484,15 @@ def zipFrame : List String → List Obj → List (String × Obj)
   | x :: xs, [] => (x, .nil) :: zipFrame xs []
   | [], _ => []
 
+/-- the frame of a call: required parameters positionally; with `&rest r`, `r` is bound to a NEW list
+of exactly the surplus arguments (built for this call, shared with nothing) -/
+def bindArgs (params : List String) (rest : Option String) (args : List Obj) : Option (List (String × Obj)) :=
+  match rest with
+  | none => if params.length != args.length then none else some (zipFrame params args)
+  | some r =>
+    if args.length < params.length then none
+    else some (zipFrame params (args.take params.length) ++ [(r, ofList (args.drop params.length))])
+
 -- ---------------------------------------------------------------------------------------------
 -- the evaluator, one `step`
 
@@ -472,13 +506,15 @@ def callClosure (args : List Obj) (cid : Nat) (σ : St) : Res :=
   match σ.clos[cid]? with
   | none => (.err typeError, σ)
   | some c =>
-    if c.params.length != args.length then (.err programError, σ) else
-    if c.name == "" then
-      rec (.seq (pushFrame c.env σ.frames.length) c.body) (addFrame σ (zipFrame c.params args))
-    else
-      catchRet σ.nextId
-        (rec (.seq (withBlock (pushFrame c.env σ.frames.length) c.name σ.nextId) c.body)
-          (bumpId (addFrame σ (zipFrame c.params args))))
+    match bindArgs c.params c.rest args with
+    | none => (.err programError, σ)
+    | some fr =>
+      if c.name == "" then
+        rec (.seq (pushFrame c.env σ.frames.length) c.body) (addFrame σ fr)
+      else
+        catchRet σ.nextId
+          (rec (.seq (withBlock (pushFrame c.env σ.frames.length) c.name σ.nextId) c.body)
+            (bumpId (addFrame σ fr)))
 
 /-- calling by name: the global function table is consulted at call time (late binding), then the
 primitives -/
@@ -694,10 +730,10 @@ def stepForm (ρ : Env) (head : String) (a : List Obj) (σ : St) : Res :=
     | some bs => rec (.letStar ρ bs body) σ
   | .setq, ps => rec (.setqPairs ρ ps .nil) σ
   | .lambda, ps :: body =>
-    match (listOf ps).bind symNames with
+    match ((listOf ps).bind symNames).bind splitRest with
     | none => (.err programError, σ)
-    | some ps =>
-      (.val [.clo σ.clos.length], addClosure σ { params := ps, body := body, env := ρ, name := "" })
+    | some (ps, r) =>
+      (.val [.clo σ.clos.length], addClosure σ { params := ps, body := body, env := ρ, name := "", rest := r })
   | .function, [.sym name] => (.val [.fn name], σ)
   | .function, [.cons (.sym "lambda") rest] => rec (.form ρ (.cons (.sym "lambda") rest)) σ
   | .funcall, f :: as =>
@@ -735,11 +771,11 @@ def stepForm (ρ : Env) (head : String) (a : List Obj) (σ : St) : Res :=
         | none, _, _ => (.err typeError, σ1)
       | _ => (.err programError, σ1))
   | .defun, .sym name :: ps :: body =>
-    match (listOf ps).bind symNames with
+    match ((listOf ps).bind symNames).bind splitRest with
     | none => (.err programError, σ)
-    | some ps =>
+    | some (ps, r) =>
       (.val [.sym name],
-        setFun (addClosure σ { params := ps, body := body, env := ρ, name := name }) name σ.clos.length)
+        setFun (addClosure σ { params := ps, body := body, env := ρ, name := name, rest := r }) name σ.clos.length)
   | .dolist, spec :: body =>
     match listOf spec with
     | some (.sym var :: listForm :: result) =>
@@ -845,6 +881,27 @@ def stepForm (ρ : Env) (head : String) (a : List Obj) (σ : St) : Res :=
         | some true => (.err "x-deadlock", σ1)
         | none => (.err typeError, σ1)
       | _ => (.err typeError, σ1))
+  -- `(recover sym on-recover form…)` (gi:recover): the forms in order; when one of them signals an error, the
+  -- on-recover form is evaluated with `sym` bound to the condition and gives the value. Only errors are
+  -- recovered: return-from / go pass.
+  | .recover, .sym x :: onrec :: body =>
+    andThen (rec (.seq ρ body) σ) (fun o σ1 =>
+      match o with
+      | .err cls => rec (.form (pushFrame ρ σ1.frames.length) onrec) (addFrame σ1 [(x, .cond cls)])
+      | o => (o, σ1))
+  -- `(with-open-file (sym path option…) form…)`: path and options are evaluated left to right, the stream is
+  -- opened and bound to `sym` in a new frame, and closed when the body is left — on every path.
+  | .withOpenFile, spec :: body =>
+    match listOf spec with
+    | some (.sym x :: path :: opts) =>
+      bindV (rec (.args ρ (path :: opts)) σ) (fun vs σ1 =>
+        match vs with
+        | .str _ :: _ =>
+          andThen (rec (.seq (pushFrame ρ σ1.frames.length) body)
+              (addFrame (addStream σ1) [(x, .stream σ1.streams.length)]))
+            (fun o σ2 => (o, closeStream σ2 σ1.streams.length))
+        | _ => (.err typeError, σ1))
+    | _ => (.err typeError, σ)
   | .call, as =>
     bindV (rec (.args ρ as) σ) (fun vs σ1 => rec (.apply (.fn head) vs) σ1)
   | _, _ => (.err programError, σ)
